@@ -58,6 +58,12 @@ BackShape(ta, tb) ==
   ELSE IF IsRgb(ta) THEN (IF IsRgb(tb) THEN <<1, 2, 3>> ELSE <<>>)
   ELSE <<1>>
 
+\* the named web colours of type tb against the Rgb888 table: items <<r8, g8, b8, r, g, b>>; every channel is the
+\* representable value nearest to the scaled 8-bit one (as for the conversion Rgb888 -> tb)
+CssFails(tb, items) ==
+  IF \A i \in 1..Len(items) : \A ch \in 1..3 : Nearest(255, ChMax(tb, ch), items[i][ch], items[i][3 + ch])
+  THEN {} ELSE {"named_colour_not_nearest"}
+
 \* one pair, observation record o: rels (sequence of relations in RelShape order), backs (in
 \* BackShape order), l8on (RGB -> binary: relation <<luma of Gray8::from(c), is_on>>), black, white
 PairFails(a, b, o) ==
